@@ -24,11 +24,20 @@ for pid in props:
     })
 na = [{"property_id": p, "reason": registry.NOT_APPLICABLE.get(p, "check not built yet (work in progress; see DESIGN.md section 11)")}
       for p in props if p not in registry.CHECKS]
+import glob as _g
+growth = sorted(os.path.basename(f)[4:-3].upper() for f in _g.glob(os.path.join(V, "checks", "reg_g*.py")) if os.path.exists(os.path.join(V, "checks", os.path.basename(f)[4:])))
+engines = list(registry.ENGINES)
+engines[0] = dict(engines[0], serves_properties=[c["property_id"] for c in checks])
+engines[1] = dict(engines[1], serves_properties=[c["property_id"] for c in checks])
+if growth:
+    engines.append({"name": "growth-checks", "path": "/verif/checks", "serves_properties": [],
+                    "kind_free_text": "specification growth beyond the listed properties (DESIGN section 5): " + ", ".join(growth) +
+                                      " -- each `./check <Gnn> quick|thorough` has the same contract as a property check (own TLA+ modules, replay + trace validation); statements in notes/<Gnn>.md"})
 m = {
     "version": 1,
     "setup_cmd": "./setup.sh",
     "hooks": registry.HOOKS,
-    "engines": registry.ENGINES,
+    "engines": engines,
     "checks": checks,
     "notes": registry.NOTES,
     "not_applicable": na,
